@@ -32,6 +32,21 @@ Fixpoint str_eqb (a b : str) : bool :=
   | _, _ => false
   end.
 
+(* `str::cmp`: bytewise lexicographic, a proper prefix is smaller *)
+Fixpoint str_cmp (a b : str) : comparison :=
+  match a, b with
+  | [], [] => Eq
+  | [], _ :: _ => Lt
+  | _ :: _, [] => Gt
+  | x :: a', y :: b' =>
+      match x ?= y with
+      | Eq => str_cmp a' b'
+      | c => c
+      end
+  end.
+
+Definition str_ltb (a b : str) : bool := match str_cmp a b with Lt => true | _ => false end.
+
 (* outcome of a modelled Rust computation that may panic *)
 Inductive outcome (A : Type) : Type :=
 | Ret (a : A)
@@ -40,6 +55,10 @@ Inductive outcome (A : Type) : Type :=
 Arguments Ret {A} a.
 Arguments Panic {A}.
 Arguments OutOfFuel {A}.
+
+Inductive result (A E : Type) := Ok (a : A) | Err (e : E).
+Arguments Ok {A E} a.
+Arguments Err {A E} e.
 
 (* ---- iterator / str primitives ------------------------------------------------ *)
 
@@ -108,8 +127,31 @@ Definition ends_with (s p : str) : bool :=
 Definition strip_suffix (s p : str) : option str :=
   if ends_with s p then Some (firstn (length s - length p) s) else None.
 
+(* indexing by a machine integer without ever converting a huge N to unary nat *)
+Fixpoint nth_N {A} (l : list A) (i : N) : option A :=
+  match l with
+  | [] => None
+  | x :: r => if i =? 0 then Some x else nth_N r (i - 1)
+  end.
+
 (* `s.as_bytes().get(i)` *)
-Definition get_byte (s : str) (i : nat) : option N := nth_error s i.
+Definition get_byte (s : str) (i : N) : option N := nth_N s i.
+
+(* ---- list updates --------------------------------------------------------- *)
+
+Fixpoint set_nth {A} (n : nat) (x : A) (l : list A) : list A :=
+  match n, l with
+  | O, _ :: r => x :: r
+  | S n', y :: r => y :: set_nth n' x r
+  | _, [] => []
+  end.
+
+Fixpoint remove_nth {A} (n : nat) (l : list A) : list A :=
+  match n, l with
+  | O, _ :: r => r
+  | S n', y :: r => y :: remove_nth n' r
+  | _, [] => []
+  end.
 
 (* ---- views ---------------------------------------------------------------- *)
 
